@@ -19,7 +19,8 @@
    The rule for the while loop (with a loop invariant over the accumulated condition) is C09_while_loop_rule.
    _breakif: C09_breakif_rule.
    The for loop with a secret bound: C09_for_loop_rule.
-   Not proved in Coq: the same rule for elif chains, checkstopmax, and variables holding other kinds than secret
+   Chains with any number of _elif: C09_if_elif_chain_rule, C09_if_elif_else_chain_rule.
+   Not proved in Coq: and variables holding other kinds than secret
    integers (the model of these -- ctx_while, nodefvals bookkeeping, object identities -- is compared with the code trace for trace);
    that model is tied to the code by the trace correspondence, and the check compares every generated program with a
    native-control-flow twin, evaluates the constraints on the witness and compares shapes across branch choices. *)
@@ -178,7 +179,8 @@ Theorem C09_breakif_rule : forall (p : Z), prime p -> forall ins ig (c : cfg) (c
      Q (with_stack (with_vals b (IfRule.lcs xs)) ({| bk := KWhile; bcond := PBool 0 cc; bbak := IfRule.lcs xs; borig := orig; bnodef := Some []; bicond := None |} :: rest)) s' sg') ->
   Wp.wp ins ig (gen_top c (SBreakIf cn) b) s sg Q.
 Proof. intros p Hp ins ig c. exact (IfRule.obreakif_rule ins ig c). Qed.
-(* The oblivious for loop of the model ( for i in _range(start, regs[stop], max=maxv): regs[ix] = i; body ; _endfor(), checkstopmax off ):
+(* The oblivious for loop of the model ( for i in _range(start, regs[stop], max=maxv, checkstopmax=check): regs[ix] = i; body ; _endfor() ;
+   with checkstopmax the loop additionally asserts, after the last iteration, that the accumulated condition and [last <> stop] are not both 1 ):
    max - start iterations run (at least one); iteration k runs with the index start + k under the accumulated condition
    acc_k = [start <> stop] * ... * [start + k <> stop]  (1 exactly while the index has not reached the secret bound); between iterations the
    variables are merged old + acc * (new - old) (WhileContext._while), after the last one by _endfor.  With a loop invariant J and a final
@@ -194,12 +196,81 @@ Theorem C09_for_loop_rule : forall (p : Z), prime p -> forall ins ig (c : cfg) (
            ((k < n)%nat -> forall xs cc' s3 sg3 sgc, WpBase.Inv ins ig s3 sg3 -> ext sg2 sgc -> ext sgc sg3 -> Forall2 (IfRule.merged ins ig (IfRule.lcs vals) cc sgc s3 sg3) news xs -> sc s3 cc' ->
               Sym.veval p ins ig sg3 (sval cc') = Sym.veval p ins ig sg2 (sval cc) * (if (start + Z.of_nat k + 1) =? Sym.veval p ins ig sg2 (sval sx) then 0 else 1) -> J (S k) (bregs b2) xs cc' sg3) /\
            (k = n -> forall xs s3 sg3, WpBase.Inv ins ig s3 sg3 -> ext sg2 sg3 -> Forall2 (IfRule.merged ins ig (IfRule.lcs vals) cc sg2 s3 sg3) news xs -> Jend (bregs b2) xs sg3))) ->
-  forall (vals0 : list (nat * Sym.slc p)) s sg (Q : @Prog.bst p -> @Gadgets.gst p -> Sym.store -> Prop),
+  forall (check : bool) (vals0 : list (nat * Sym.slc p)) s sg (Q : @Prog.bst p -> @Gadgets.gst p -> Sym.store -> Prop),
   WpBase.Inv ins ig s sg -> rget (bregs b) stop = PLC sx -> sc s sx -> bvals b = IfRule.lcs vals0 -> NoDup (map fst vals0) ->
   (forall cc s1 sg1, WpBase.Inv ins ig s1 sg1 -> ext sg sg1 -> sc s1 cc -> Sym.veval p ins ig sg1 (sval cc) = (if start =? Sym.veval p ins ig sg (sval sx) then 0 else 1) -> J 0%nat (bregs b) vals0 cc sg1) ->
   (forall b4 s4 sg4 xs, WpBase.Inv ins ig s4 sg4 -> ext sg sg4 -> Jend (bregs b4) xs sg4 -> bstack b4 = bstack b -> bvals b4 = IfRule.lcs xs -> Q b4 s4 sg4) ->
-  Wp.wp ins ig (gen_top c (SOFor ix start stop maxv false body) b) s sg Q.
+  Wp.wp ins ig (gen_top c (SOFor ix start stop maxv check body) b) s sg Q.
 Proof. intros p Hp ins ig c body ix start stop maxv b sx J Jend n HS. exact (IfRule.ofor_rule ins ig (field_ok_prime p Hp) c body ix start stop maxv b sx J Jend HS). Qed.
+(* if / elif* chains ( if _if(c): thenb ; [if _elif(lambda: <condb>; regs[cr]): body]* ; [if _else(): elseb] ; _endif() ), any number of _elif:
+   with invariants JC j (at the head of branch j: the previous branch's values not yet merged, the backup, its effective condition cj and the
+   running "no branch taken yet" condition icj), JM j (after branch j's condition nw was evaluated outside the previous guard) and JE (after the
+   else body).  Branch j runs under  icj * nw, the running condition becomes icj * (1 - nw); each branch is merged old + cond * (new - old) when
+   the next one is examined; the else body runs under the final running condition.  For 0/1 conditions exactly the first branch whose condition
+   holds contributes its values, or the else body: the native if / elif / else.  The three specifications, spelled out: *)
+Section C09_chain.
+Variable p : Z.
+Hypothesis Hp : prime p.
+Variables (ins : list Z) (ig : bool) (c : cfg).
+Variables (es : list (list stmt * nat * list stmt)) (b : @Prog.bst p).
+Variable JC : nat -> Prog.regs (p:=p) -> list (nat * Sym.slc p) -> list (nat * Sym.slc p) -> Sym.slc p -> Sym.slc p -> Sym.store -> Prop.
+Variable JM : nat -> Prog.regs (p:=p) -> list (nat * Sym.slc p) -> Sym.slc p -> Sym.slc p -> Sym.store -> Prop.
+Variable JE : Prog.regs (p:=p) -> list (nat * Sym.slc p) -> list (nat * Sym.slc p) -> Sym.slc p -> Sym.store -> Prop.
+Local Notation ve := (Sym.veval p ins ig).
+Local Notation Inv := (WpBase.Inv ins ig).
+Local Notation lcs := IfRule.lcs.
+Local Notation merged := (IfRule.merged ins ig).
+Theorem C09_chain_condition_spec : IfRule.CondSpec ins ig c es b JC JM <->
+  (forall j condb cr body, nth_error es j = Some (condb, cr, body) ->
+   forall b0 news baks cj icj sgJ xs sgm s1 sg1, JC j (bregs b0) news baks cj icj sgJ -> ext sgJ sgm -> ext sgm sg1 -> Inv s1 sg1 ->
+     Forall2 (merged (lcs baks) cj sgm s1 sg1) news xs ->
+     Wp.wp ins ig (gen_stmts c condb (with_stack (with_vals b0 (lcs xs)) (bstack b))) s1 sg1
+       (fun bc s2 sg2 => Inv s2 sg2 /\ ext sg1 sg2 /\ bstack bc = bstack b /\ bvals bc = lcs xs /\
+          exists o' nw, rget (bregs bc) cr = PBool o' nw /\ sc s2 nw /\ JM j (bregs bc) xs icj nw sg2)).
+Proof. split; intros H; exact H. Qed.
+Theorem C09_chain_body_spec : IfRule.BodySpec ins ig c es b JC JM <->
+  (forall j condb cr body, nth_error es j = Some (condb, cr, body) ->
+   forall bc xs icj nw sgM en nwic orig s3 sg3, JM j (bregs bc) xs icj nw sgM -> ext sgM sg3 -> Inv s3 sg3 -> tvalid ins ig orig s3 sg3 ->
+     bstack bc = bstack b -> bvals bc = lcs xs -> sc s3 en -> sc s3 nwic ->
+     ve sg3 (sval en) = ve sgM (sval icj) * ve sgM (sval nw) -> ve sg3 (sval nwic) = ve sgM (sval icj) * (1 - ve sgM (sval nw)) ->
+     let cx1 := {| bk := KIf; bcond := PBool 0 en; bbak := lcs xs; borig := orig; bnodef := Some []; bicond := Some (PBool 0 nwic) |} in
+     Wp.wp ins ig (gen_stmts c body (with_stack bc (cx1 :: bstack b))) s3 sg3
+       (fun bb s4 sg4 => Inv s4 sg4 /\ ext sg3 sg4 /\ bstack bb = cx1 :: bstack b /\
+          exists news', bvals bb = lcs news' /\ NoDup (map fst news') /\ Forall (pre ins ig (lcs xs) s4 sg4) news' /\ JC (S j) (bregs bb) news' xs en nwic sg4)).
+Proof. split; intros H; exact H. Qed.
+Theorem C09_chain_else_spec : forall body, IfRule.ElseSpec ins ig c es b JC JE body <->
+  (forall b2 news baks cj oi icj sgJ xs sgm orig s3 sg3, JC (length es) (bregs b2) news baks cj icj sgJ -> ext sgJ sgm -> ext sgm sg3 -> Inv s3 sg3 ->
+     tvalid ins ig orig s3 sg3 -> Forall2 (merged (lcs baks) cj sgm s3 sg3) news xs ->
+     let cx1 := {| bk := KIf; bcond := PBool oi icj; bbak := lcs xs; borig := orig; bnodef := Some []; bicond := None |} in
+     Wp.wp ins ig (gen_stmts c body (with_stack (with_vals b2 (lcs xs)) (cx1 :: bstack b))) s3 sg3
+       (fun b3 s4 sg4 => Inv s4 sg4 /\ ext sg3 sg4 /\ bstack b3 = cx1 :: bstack b /\
+          exists news_e, bvals b3 = lcs news_e /\ NoDup (map fst news_e) /\ Forall (pre ins ig (lcs xs) s4 sg4) news_e /\ JE (bregs b3) news_e xs icj sg4)).
+Proof. intros body. split; intros H; exact H. Qed.
+Theorem C09_if_elif_chain_rule : IfRule.CondSpec ins ig c es b JC JM -> IfRule.BodySpec ins ig c es b JC JM ->
+  forall (cn : nat) (thenb : list stmt) o cb (olds : list (nat * Sym.slc p)) s sg (Q : @Prog.bst p -> @Gadgets.gst p -> Sym.store -> Prop),
+  Inv s sg -> rget (bregs b) cn = PBool o cb -> sc s cb -> bvals b = lcs olds ->
+  (forall orig s1 sg1, Inv s1 sg1 -> ext sg sg1 -> tvalid ins ig orig s1 sg1 ->
+     let cx := {| bk := KIf; bcond := PBool o cb; bbak := lcs olds; borig := orig; bnodef := None; bicond := Some (PBool 0 (bnot cb)) |} in
+     Wp.wp ins ig (gen_stmts c thenb (with_stack b (cx :: bstack b))) s1 sg1
+        (fun b2 s2 sg2 => Inv s2 sg2 /\ ext sg1 sg2 /\ bstack b2 = cx :: bstack b /\
+           exists news, bvals b2 = lcs news /\ NoDup (map fst news) /\ Forall (pre ins ig (lcs olds) s2 sg2) news /\ JC 0%nat (bregs b2) news olds cb (bnot cb) sg2)) ->
+  (forall b4 s4 sg4 news baks cj icj sgJ xs sgm, Inv s4 sg4 -> ext sg sg4 -> ext sgJ sgm -> ext sgm sg4 -> JC (length es) (bregs b4) news baks cj icj sgJ -> bstack b4 = bstack b -> bvals b4 = lcs xs ->
+     Forall2 (merged (lcs baks) cj sgm s4 sg4) news xs -> Q b4 s4 sg4) ->
+  Wp.wp ins ig (gen_top c (SOIf cn thenb es None) b) s sg Q.
+Proof. intros HC HB. exact (IfRule.oifchain_rule ins ig c es b JC JM HC HB). Qed.
+Theorem C09_if_elif_else_chain_rule : IfRule.CondSpec ins ig c es b JC JM -> IfRule.BodySpec ins ig c es b JC JM -> forall body, IfRule.ElseSpec ins ig c es b JC JE body ->
+  forall (cn : nat) (thenb : list stmt) o cb (olds : list (nat * Sym.slc p)) s sg (Q : @Prog.bst p -> @Gadgets.gst p -> Sym.store -> Prop),
+  Inv s sg -> rget (bregs b) cn = PBool o cb -> sc s cb -> bvals b = lcs olds ->
+  (forall orig s1 sg1, Inv s1 sg1 -> ext sg sg1 -> tvalid ins ig orig s1 sg1 ->
+     let cx := {| bk := KIf; bcond := PBool o cb; bbak := lcs olds; borig := orig; bnodef := None; bicond := Some (PBool 0 (bnot cb)) |} in
+     Wp.wp ins ig (gen_stmts c thenb (with_stack b (cx :: bstack b))) s1 sg1
+        (fun b2 s2 sg2 => Inv s2 sg2 /\ ext sg1 sg2 /\ bstack b2 = cx :: bstack b /\
+           exists news, bvals b2 = lcs news /\ NoDup (map fst news) /\ Forall (pre ins ig (lcs olds) s2 sg2) news /\ JC 0%nat (bregs b2) news olds cb (bnot cb) sg2)) ->
+  (forall b5 s5 sg5 news_e xs icj sgE fin, Inv s5 sg5 -> ext sg sg5 -> ext sgE sg5 -> JE (bregs b5) news_e xs icj sgE -> bstack b5 = bstack b -> bvals b5 = lcs fin ->
+     Forall2 (merged (lcs xs) icj sgE s5 sg5) news_e fin -> Q b5 s5 sg5) ->
+  Wp.wp ins ig (gen_top c (SOIf cn thenb es (Some body)) b) s sg Q.
+Proof. intros HC HB body HE. exact (IfRule.oifchain_else_rule ins ig c es b JC JM JE HC HB body HE). Qed.
+End C09_chain.
 (* the selection is the native choice on 0/1 conditions *)
 Theorem C09_selection_is_native_choice : forall t f, sel 1 t f = t /\ sel 0 t f = f.
 Proof. intros t f. split; [apply sel_1|apply sel_0]. Qed.
@@ -258,12 +329,23 @@ Example C09_model_for_example :
   map (fun nn => (nth 14 (map (fun o => snd (fst o)) (outs (run nn))) 77, raised (run nn))) [0; 1; 2; 3; 4] = [(0, None); (0, None); (1, None); (3, None); (6, None)].
 Proof. vm_compute. reflexivity. Qed.
 
+(* non-vacuity of the chain rules at the level of the model: if _if(x == 0): _.v = 10; if _elif(x == 1): _.v = 20; if _elif(x == 2): _.v = 30; if _else(): _.v = 40 *)
+Example C09_model_chain_example :
+  let pr := [SInput 0 IPriv 0; SConstVal 1 0; SConstVal 2 1; SConstVal 3 2; SConstVal 10 10; SConstVal 11 20; SConstVal 12 30; SConstVal 13 40; SConstVal 14 5; SBSet 7 14;
+             SBin 4 OEq 0 1;
+             SOIf 4 [SBSet 7 10] [([SBin 5 OEq 0 2], 5%nat, [SBSet 7 11]); ([SBin 6 OEq 0 3], 6%nat, [SBSet 7 12])] (Some [SBSet 7 13]); SBGet 20 7] in
+  let run x := model_run (p:=65537) {| bitlength := 8%nat; resolution := 0 |} pr [x] false in
+  map (fun x => (raised (run x), nth 12 (map (fun o => snd (fst o)) (outs (run x))) 0)) [0; 1; 2; 3] = [(None, 10); (None, 20); (None, 30); (None, 40)].
+Proof. vm_compute. reflexivity. Qed.
+
 Print Assumptions C09_oblivious_equals_native.
 Print Assumptions C09_merge_primitive.
 Print Assumptions C09_if_block_rule.
 Print Assumptions C09_conditional_assignment.
 Print Assumptions C09_if_else_block_rule.
 Print Assumptions C09_while_loop_rule.
+Print Assumptions C09_if_elif_chain_rule.
+Print Assumptions C09_if_elif_else_chain_rule.
 Print Assumptions C09_for_loop_rule.
 Print Assumptions C09_breakif_rule.
 Print Assumptions C09_conditional_assignments.
